@@ -31,6 +31,10 @@ def table_sweep(tier):
     tags = (RG.TAGS_R if tier != 'quick' else [(), ('0',), ('a',), ('a', '1')]) + [tuple(str(i) for i in t) for t in HV.tags()[:3]]
     parts = RG.all_partials(nums, tags)
     trees = [[('set', [(f, p)])] for f in RG.FORMS for p in parts]
+    # the `+ 1`s and comparisons of the tables at every power of two and its neighbours
+    for x in power_values():
+        for xs in ([x], [x, x], [0, x], [x, x, x], [0, 0, x], [x, 0, 0]):
+            trees += [[('set', [(f, (xs, (), ()))])] for f in RG.FORMS]
     return trees, parts
 
 def gen_npm(tier, rng):
